@@ -258,7 +258,7 @@ def _session_cmp(lines, io, mo):
     return diffs
 
 
-def _sessions(ctx, tag, n, caches, texts=None, evals_only=False):
+def _sessions(ctx, tag, n, caches, texts=None, evals_only=False, script=None, script_every=0):
     seed = ctx['seed']
     texts = texts or histgen.pool(seed)
     variants = [v for t in texts for v in histgen.near_dups(t)]
@@ -267,7 +267,7 @@ def _sessions(ctx, tag, n, caches, texts=None, evals_only=False):
     lines, descr = [], []
     for i in range(n):
         rng = random.Random(f'{seed}/{tag}/{i}')
-        l, c = histgen.history(rng, texts, rng.choice(caches), evals_only)
+        l, c = histgen.history(rng, texts, rng.choice(caches), evals_only, script=(script if script_every and i % script_every == 0 else None))
         lines.append(histgen.with_table(l, c, table))
         descr.append(l[:80] + ' ' + ' ; '.join(str(x[:3]) for x in c)[:600])
     return lines, descr
@@ -418,7 +418,8 @@ def slice_malformed(ctx):
 def slice_session_scope(ctx):
     """C10: sequences of evals of VALID texts only (so nothing here depends on error recovery), with and without a names
     mapping: top-level assignments must land in the caller's mapping (or vanish with names=None), never in the builtins"""
-    lines, descr = _sessions(ctx, 'histscope', sz(ctx, 700, 8000), ['none'], texts=list(histgen.VALID), evals_only=True)
+    lines, descr = _sessions(ctx, 'histscope', sz(ctx, 700, 8000), ['none'], texts=list(histgen.VALID), evals_only=True,
+                             script=histgen.scope_script, script_every=3)
     io, mo, _, dt = corr.compare(lines)
     d = _session_cmp(lines, io, mo)
     return _finish('session_scope', lines, descr, io, mo, d, dt,
